@@ -1,4 +1,33 @@
+/-
+  C18 — polytope intersections return exactly the common points.
+  Soundness and completeness of "meet of the supporting subspaces, filtered by the membership tests":
+  membership is C16; here: a common point of two distinct coplanar lines IS their meet (so nothing is missed), and
+  parallel / identical supporting lines give a point at infinity / the zero vector (so nothing spurious is produced).
+-/
+import Geo.Props.C01
 import Geo.Spec.Shapes
 namespace Geo
-theorem C18_placeholder : (1 : Nat) = 1 := rfl
+open Spec
+
+variable {K : Type} [CommRing K]
+
+/-- completeness in the plane: a point on both lines l and m is proportional to `l × m` (all 2×2 minors vanish) -/
+theorem T18_common_point_is_meet (l m x : Nat → K) (hl : dot 3 x l = 0) (hm : dot 3 x m = 0) :
+    ∀ i j, i < 3 → j < 3 → x i * cross l m j - x j * cross l m i = 0 :=
+  T01_8_unique_P2 l m x hl hm
+
+/-- soundness: the meet lies on both supporting lines -/
+theorem T18_meet_on_both (l m : Nat → K) : dot 3 l (cross l m) = 0 ∧ dot 3 m (cross l m) = 0 := by
+  simp [dot, sumRange, cross]; constructor <;> ring
+
+/-- parallel supporting lines `(a,b,c)`, `(λa,λb,c')` meet in a point at infinity (last coordinate 0): it is filtered
+    out by the closed-segment test unless an endpoint is at infinity (rays) -/
+theorem T18_parallel_meet_at_infinity (a b c c' lam : K) :
+    cross (fun k => [a, b, c].getD k 0) (fun k => [lam * a, lam * b, c'].getD k 0) 2 = 0 := by
+  simp [cross]; ring
+
+/-- identical supporting lines (collinear segments) give the zero vector: `~result.is_zero()` drops it -/
+theorem T18_collinear_gives_zero (l : Nat → K) (lam : K) : ∀ i, i < 3 → cross l (fun k => lam * l k) i = 0 := by
+  intro i hi; interval_cases i <;> simp [cross] <;> ring
+
 end Geo
